@@ -368,8 +368,15 @@ func RunCron(sc CronScenario, base string, emit func(Ev)) error {
 	waitLoaded := func(check func([]string) bool) {
 		dl := time.Now().Add(5 * time.Second)
 		for time.Now().Before(dl) {
-			if check(s.VerifLoaded()) {
-				return
+			got := make(chan []string, 1)
+			go func() { got <- s.VerifLoaded() }()
+			select {
+			case l := <-got:
+				if check(l) {
+					return
+				}
+			case <-time.After(time.Second):
+				return // the reader does not answer: the next tick will report it
 			}
 			time.Sleep(5 * time.Millisecond)
 		}
@@ -430,9 +437,22 @@ func RunCron(sc CronScenario, base string, emit func(Ev)) error {
 		fake.starts, fake.stops, fake.restarts = map[string]int{}, map[string]int{}, map[string]int{}
 		fake.mu.Unlock()
 		counts = sync.Map{}
-		loaded := s.VerifLoaded()
-		s.VerifRunTick(tick)
-		wg.Wait()
+		// a daemon that no longer answers (e.g. a lock left held by the watcher) must not hang the rig: it is a record
+		var loaded []string
+		tickDone := make(chan struct{})
+		go func() {
+			loaded = s.VerifLoaded()
+			s.VerifRunTick(tick)
+			wg.Wait()
+			close(tickDone)
+		}()
+		select {
+		case <-tickDone:
+		case <-time.After(6 * time.Second):
+			emit(Ev{"ev": "Hung", "scen": sc.Scen, "i": i, "m": tick.Unix() / 60})
+			emit(Ev{"ev": "End", "scen": sc.Scen})
+			return nil
+		}
 		fake.mu.Lock()
 		per := Ev{}
 		names := map[string]bool{}
